@@ -108,11 +108,33 @@ func ExecIOErrEnum(base *RunSpec, opts RunOpts) *RunResult {
 // concurrent processes (S-IOERR-CONC).
 func AddIOFaults(spec *RunSpec, seed uint64, n int, estSteps int) {
 	r := simrt.NewRng(seed, "iofaults")
+	// tables opened by every process when it starts (a failed NewStack ends
+	// that process' part of the run: aim most faults past it)
+	initTables := 0
+	for _, op := range spec.Setup {
+		if op.Kind == OpAdd {
+			initTables++
+		}
+	}
 	for i := 0; i < n; i++ {
 		t := 1 + r.Intn(len(spec.Tasks))
+		if r.Bool(0.5) {
+			// addressed by call kind: the rare calls get their share
+			f := ioFault(seed, t, i)
+			f.Step = 0
+			f.Call = ioFaultKinds[r.Intn(len(ioFaultKinds))]
+			f.Nth = 1 + r.Intn(8)
+			if (f.Call == "open" || f.Call == "fstat") && r.Bool(0.8) {
+				f.Nth += initTables
+			}
+			spec.Faults = append(spec.Faults, f)
+			continue
+		}
 		spec.Faults = append(spec.Faults, ioFault(seed, t, 2+r.Intn(estSteps)))
 	}
 }
+
+var ioFaultKinds = []string{"open", "open", "createx", "tempfile", "rename", "rename", "remove", "readfile", "readdir", "write", "readat", "fstat", "close", "stat"}
 
 func ioEnumPart(prop string, q, t int) Part {
 	return Part{Name: "S-IOERR", Quick: q, Thorough: t, Gen: func(seed uint64) *RunSpec { return GenIOErrEnum(prop, seed) }, Exec: ExecIOErrEnum}
